@@ -761,4 +761,123 @@ theorem mono_grant_ne_zero {lo hi base : Nat} {desc : Nat → Nat} {s : MS} (hI 
   unfold pagesInChunk at *
   omega
 
+/-! ## The hypotheses are satisfiable: a concrete history -/
+
+instance instDecidableMPre (base : Nat) (s : MS) : (op : MOp) → Decidable (MPre base s op)
+  | .fl op => inferInstanceAs (Decidable (PPre s.pg op ∧ op.sp < base))
+  | .malloc _ pages => inferInstanceAs (Decidable (1 ≤ pages))
+  | .mreset k => inferInstanceAs (Decidable ((s.pg.owned (base + k)).length ≤ 4096 + 1))
+
+def mvalidB (debug : Bool) (base : Nat) (desc : Nat → Nat) : MS → List MOp → Bool
+  | _, [] => true
+  | s, op :: ops =>
+    decide (MPre base s op) && match mstep debug base desc s op with
+      | none => true
+      | some (s', _) => mvalidB debug base desc s' ops
+
+theorem mvalid_of_mvalidB {debug : Bool} {base : Nat} {desc : Nat → Nat} : ∀ (ops : List MOp) {s : MS},
+    mvalidB debug base desc s ops = true → MValid debug base desc s ops := by
+  intro ops
+  induction ops with
+  | nil => intro _ _; trivial
+  | cons op ops ih =>
+    intro s h
+    simp only [mvalidB, Bool.and_eq_true, decide_eq_true_eq] at h
+    refine ⟨h.1, ?_⟩
+    cases hs : mstep debug base desc s op with
+    | none => trivial
+    | some q =>
+      obtain ⟨s1, r⟩ := q
+      rw [hs] at h
+      exact ih h.2
+
+/-- Pool = chunks 2..5 of a 12-chunk map; one free-list-side resource (slot 0, descriptor 4), two
+monotone resources (slots 8, 9; descriptors 40, 44): grants, a growth, the free-list side takes the last
+chunk, a refused request, a release, a retry that succeeds, a reset. -/
+def exMOps : List MOp :=
+  [.malloc 0 512, .malloc 1 1000, .malloc 0 600, .fl (.grow 0 4 1), .malloc 1 100, .malloc 0 100,
+   .fl (.release 0 5), .malloc 1 100, .mreset 0, .malloc 0 1500]
+
+def exDesc : Nat → Nat := fun k => 40 + 4 * k
+
+example : MValid false 8 exDesc { p := { st := finalize 12 2 5 } } exMOps := mvalid_of_mvalidB _ (by decide +kernel)
+
+/-- what the example looks at: avail, the two heads, cursor / sentinel / current chunk / counters of both -/
+def mview (q : Option MS) : Option (Nat × Nat × Nat × List Nat × List Nat) :=
+  q.map fun s => (s.p.st.avail, s.p.heads 8, s.p.heads 9,
+    [(s.mono 0).cursor, (s.mono 0).sentinel, (s.mono 0).cc, (s.mono 0).acct.reserved, (s.mono 0).acct.committed],
+    [(s.mono 1).cursor, (s.mono 1).sentinel, (s.mono 1).cc, (s.mono 1).acct.reserved, (s.mono 1).acct.committed])
+
+/-- After the first six operations the pool is empty, resource 1 was refused (its fields are zeroed, its
+counters still say 1000 pages) and resource 0 bumped inside its second region. -/
+example : mview (mrun false 8 exDesc { p := { st := finalize 12 2 5 } } (exMOps.take 6)) =
+    some (0, 4, 3, [4 * 1024 + 700, 5 * 1024, 4, 1212, 1212], [0, 0, 0, 1000, 1000]) := by decide +kernel
+
+example : ∃ s, mrun false 8 exDesc { p := { st := finalize 12 2 5 } } exMOps = some s ∧ MInv 2 6 8 exDesc s := by
+  have hv : MValid false 8 exDesc { p := { st := finalize 12 2 5 } } exMOps := mvalid_of_mvalidB _ (by decide +kernel)
+  cases h : mrun false 8 exDesc { p := { st := finalize 12 2 5 } } exMOps with
+  | none =>
+    have : (mrun false 8 exDesc { p := { st := finalize 12 2 5 } } exMOps).isSome = true := by decide +kernel
+    rw [h] at this; cases this
+  | some s => exact ⟨s, rfl, mono_history_inv _ (minv_init (by decide) (by decide) (by decide) 8 exDesc) hv h⟩
+
+/-! ## Witnesses (by `decide`) -/
+
+/-- a sequence of `Space::acquire` rounds of one resource (slot 8, descriptor 40): the answers and the
+final `(avail, head, cursor, sentinel, current chunk, reserved, committed)` -/
+def mallocs (special debug : Bool) : PR × Mono → List Nat → List AllocR × List Nat
+  | (p, m), [] => ([], [p.st.avail, p.heads 8, m.cursor, m.sentinel, m.cc, m.acct.reserved, m.acct.committed])
+  | (p, m), n :: ns =>
+    match Mono.acquireG special debug p m 8 40 n with
+    | (p', m', r) => let (rs, fin) := mallocs special debug (p', m') ns; (r :: rs, fin)
+
+/-- **The seeded variant C28b** (`special = false`: the sentinel of a FAILED growth is
+`0 + required_chunks · 4 MB`): on a pool of two chunks, after two one-chunk grants the third request is
+answered `ok` with START ADDRESS 0 (page 0: outside the pool `[2, 4)`), is counted in reserved /
+committed, and the fourth is granted page 0 AGAIN (overlap); the code (`special = true`) refuses both and
+the counters stay at the 2048 pages really granted. -/
+theorem growth_failure_without_special_case_grants_zero :
+    mallocs false true ({ st := finalize 12 2 3 }, {}) [1024, 1024, 512, 1024] =
+      ([.ok 2048 1024 true, .ok 3072 1024 true, .ok 0 512 true, .ok 0 1024 true], [0, 3, 1024, 1024, 0, 3584, 3584]) ∧
+    mallocs true true ({ st := finalize 12 2 3 }, {}) [1024, 1024, 512, 1024] =
+      ([.ok 2048 1024 true, .ok 3072 1024 true, .fail, .fail], [0, 3, 0, 0, 0, 2048, 2048]) := by
+  decide +kernel
+
+/-- **"A failed request changes nothing" is FALSE for the resource's own cursor**: with 524 pages left in
+its current region (cursor 3·1024 + 500, sentinel 4·1024) and an empty pool, a request of 600 pages is
+refused AND zeroes cursor / sentinel / current chunk; the following request of 100 pages — which fitted
+before — is refused too. -/
+theorem failed_growth_forgets_current_region :
+    mallocs true true ({ st := finalize 12 2 3 }, {}) [1024, 500] =
+      ([.ok 2048 1024 true, .ok 3072 500 true], [0, 3, 3 * 1024 + 500, 4 * 1024, 3, 1524, 1524]) ∧
+    mallocs true true ({ st := finalize 12 2 3 }, {}) [1024, 500, 600, 100] =
+      ([.ok 2048 1024 true, .ok 3072 500 true, .fail, .fail], [0, 3, 0, 0, 0, 1524, 1524]) ∧
+    mallocs true true ({ st := finalize 12 2 3 }, {}) [1024, 500, 100] =
+      ([.ok 2048 1024 true, .ok 3072 500 true, .ok 3572 100 false], [0, 3, 3 * 1024 + 600, 4 * 1024, 3, 1624, 1624]) := by
+  decide +kernel
+
+/-- `(avail, head, walk from the head, reserved, committed)` after the requests and one `reset()` -/
+def resetAfter (debug : Bool) (reqs : List Nat) : Option (Nat × Nat × List Nat × Nat × Nat) :=
+  let rec go : PR × Mono → List Nat → PR × Mono
+    | q, [] => q
+    | (p, m), n :: ns => match Mono.acquire debug p m 8 40 n with | (p', m', _) => go (p', m') ns
+  let (p, m) := go ({ st := finalize 12 2 3 }, {}) reqs
+  (m.reset debug p 8).map fun (p', m') => (p'.st.avail, p'.heads 8, walk p'.st 8 (p'.heads 8), m'.acct.reserved, m'.acct.committed)
+
+/-- **`reset()` after a failed growth releases nothing**: the counters go to 0 but both chunks stay
+allocated to the resource (avail 0, head 3, regions 3 and 2 still on its list); without the failed
+request the same `reset()` hands both chunks back. -/
+theorem reset_after_failed_growth_keeps_chunks :
+    resetAfter true [1024, 500, 600] = some (0, 3, [3, 2], 0, 0) ∧
+    resetAfter true [1024, 500] = some (2, 0, [], 0, 0) := by
+  decide +kernel
+
+/-- **Debug builds**: after a grant of 2048 pages (two chunks) the cursor stands two chunks above
+`current_chunk`; the next `alloc_pages` reaches `log_chunk_fields` (which locks `sync`) with `sync`
+locked. Release builds answer. -/
+theorem debug_self_deadlock_after_two_chunk_grant :
+    (mallocs true true ({ st := finalize 12 2 5 }, {}) [2048, 1]).1 = [.ok 2048 2048 true, .deadlock] ∧
+    (mallocs true false ({ st := finalize 12 2 5 }, {}) [2048, 1]).1 = [.ok 2048 2048 true, .ok 4096 1 true] := by
+  decide +kernel
+
 end Mmtk.Map32
